@@ -218,6 +218,20 @@ def bxor(a, b):
     return _unlin((fa[0] ^ fb[0], fa[1] ^ fb[1]))
 
 
+class Rec:
+    """Value of a local struct object: immutable map field -> value (a store makes a new one, so traces can share it)."""
+    __slots__ = ("name", "fields")
+
+    def __init__(self, name, fields):
+        self.name = name
+        self.fields = dict(fields)
+
+    def set(self, fld, v):
+        d = dict(self.fields)
+        d[fld] = v
+        return Rec(self.name, d)
+
+
 class Infeasible(Exception):
     pass
 
@@ -486,6 +500,36 @@ class Interp:
                         v = self.convert(v, eti)
                         yield from fill(s2, j + 1, bits + list(v.bits))
                 yield from fill(st, 0, [])
+                return
+        sm = re.match(r"^(?:const\s+)?(?:struct|union)\s+(\w+)$", (d.get("ct") or d.get("t") or "").strip())
+        rec = self.prog.record(sm.group(1), self.unit) if sm and hasattr(self.prog, "record") else None
+        if rec is not None:
+            # a local struct object: a record value
+            if d.get("init") is None:
+                st.frames[-1][d["name"]] = Rec(rec["name"], {})
+                yield from self.exec_decls(st, decls, i + 1, f, depth)
+                return
+            if d["init"].get("k") == "InitListExpr":
+                elems = d["init"].get("kids", [])
+                flds = rec["fields"]
+                if len(elems) > len(flds):
+                    raise BrokenAnalysis("%s: more initialisers than members (%s)" % (f.name, self.where(f, d["init"])))
+
+                def fillr(s, j, acc):
+                    if j >= len(flds):
+                        s.frames[-1][d["name"]] = Rec(rec["name"], acc)
+                        yield from self.exec_decls(s, decls, i + 1, f, depth)
+                        return
+                    fti = tparse(flds[j].get("ct") or flds[j].get("t") or "")
+                    if j >= len(elems) or elems[j].get("k") == "ImplicitValueInitExpr":
+                        zero = const(0, fti[1], fti[2]) if fti and fti[0] == "int" else Ptr(None, 0)
+                        yield from fillr(s, j + 1, dict(acc, **{flds[j]["name"]: zero}))
+                        return
+                    for s2, v in self.ev(s, elems[j], f, depth):
+                        if isinstance(v, BV) and fti and fti[0] == "int":
+                            v = self.convert(v, fti)
+                        yield from fillr(s2, j + 1, dict(acc, **{flds[j]["name"]: v}))
+                yield from fillr(st, 0, {})
                 return
         if d.get("init") is None:
             if ti and ti[0] == "int":
@@ -1031,6 +1075,15 @@ class Interp:
         s.writes.append((base, off))
 
     def load(self, s, loc, ti, f, n):
+        if loc[0] == "sfld":
+            v = s.frames[loc[1]][loc[2]].fields.get(loc[3])
+            if v is None:
+                if ti and ti[0] == "int":
+                    return BV([None] * ti[1], ti[2])
+                raise BrokenAnalysis("%s: read of member %s before it has a value (%s)" % (f.name, loc[3], self.where(f, n)))
+            if isinstance(v, BV) and ti and ti[0] == "int" and v.width != ti[1]:
+                v = self.convert(v, ti)
+            return v
         if loc[0] == "var":
             v = s.frames[loc[1]].get(loc[2])
             if v is None:
@@ -1055,6 +1108,11 @@ class Interp:
         return BV(bits, ti[2])
 
     def store(self, s, loc, v, ti, f, n):
+        if loc[0] == "sfld":
+            if isinstance(v, BV) and ti and ti[0] == "int":
+                v = self.convert(v, ti)
+            s.frames[loc[1]][loc[2]] = s.frames[loc[1]][loc[2]].set(loc[3], v)
+            return
         if loc[0] == "var":
             if isinstance(v, BV) and ti and ti[0] == "int":
                 v = self.convert(v, ti)
@@ -1106,6 +1164,13 @@ class Interp:
             raise BrokenAnalysis("%s: lvalue %s outside the bit domain (%s)" % (f.name, k, self.where(f, n)))
 
     def lv_member(self, st, n, f, depth):
+        if not n.get("arrow"):
+            for s, loc in self.lv(st, n["kids"][0], f, depth):
+                if loc[0] == "var" and isinstance(s.frames[loc[1]].get(loc[2]), Rec):
+                    yield s, ("sfld", loc[1], loc[2], n["field"])
+                else:
+                    raise BrokenAnalysis("%s: member access outside the bit domain (%s)" % (f.name, self.where(f, n)))
+            return
         raise BrokenAnalysis("%s: member access outside the bit domain (%s)" % (f.name, self.where(f, n)))
 
     @staticmethod
